@@ -168,13 +168,21 @@ impl<'a> Pattern<'a> {
 
         // Unlike Skia, we do not support global opacity and only Pattern allows it.
         if self.opacity != NormalizedF32::ONE {
-            debug_assert_eq!(
-                core::mem::size_of_val(&self.opacity),
-                4,
-                "alpha must be f32"
-            );
-            p.ctx.current_coverage = self.opacity.get();
-            p.push(pipeline::Stage::Scale1Float);
+            // `Scale1Float` reads `ctx.current_coverage`, which the blitter overwrites
+            // with the anti-aliasing coverage of every partially covered span.
+            // Keep the opacity in a context of its own: multiply the sample
+            // by a uniform (opacity, opacity, opacity, opacity) "color".
+            let opacity = self.opacity.get();
+            p.ctx.uniform_color = pipeline::UniformColorCtx {
+                r: opacity,
+                g: opacity,
+                b: opacity,
+                a: opacity,
+                rgba: [0; 4],
+            };
+            p.push(pipeline::Stage::MoveSourceToDestination);
+            p.push(pipeline::Stage::UniformColor);
+            p.push(pipeline::Stage::Modulate);
         }
 
         if let Some(stage) = cs.expand_stage() {
